@@ -30,7 +30,7 @@ TECHNIQUE = (
     "cache-reset model validated against fresh interpreters"
 )
 LEVEL_TEXT = (
-    "28 calls (einsum, array_contract, array_contract_path/tree/expression, "
+    "38 calls (einsum, array_contract, array_contract_path/tree/expression, "
     "einsum_expression, expression reuse on new arrays) differing pairwise "
     "in one cache-key component (output order, one size, optimize as preset "
     "/ tuple path / list path / nested-list path / edge path, "
